@@ -10,7 +10,7 @@ Operations
   (`<pfx>` = `-` or `<target>+<origin>+<elems>`), `E` (update wrapper with a nil notification),
   `s0` / `s1` (sync response), `e` (no response set); otherwise they are values as for `fq`.
   Observation `ok`.
-* `sub <via p|g> <mode s|o|p> <target - | str> <limit> <polls>` — one Subscribe RPC: at most
+* `sub <via p|g|s> <mode s|o|p> <target - | str> <limit> <polls>` — one Subscribe RPC: at most
   `limit` responses are read: `[<response>,…]/<end>` with `<end>` = `eof` | `held` | `poll` |
   `open` (limit reached) | `panic`.
 * `bad <via p|g> <eof | nosub | err:<code>>` — a first request `Run` rejects: `rejected:code<N>` (numeric gRPC code).
@@ -88,14 +88,16 @@ def step (s : St) (args : List String) : St × String × String :=
           generator := if gen == "f" then .fixed (items.map decFixed)
                        else if gen == "c" then .custom else if gen == "r" then .random else .none }
       ({ cfg := cfg, clients := 0 }, "ok", "ok")
-  | ["sub", _via, mode, target, limit, polls] =>
+  | ["sub", via, mode, target, limit, polls] =>
       let sl : SubList := { prefixTarget := if target == "-" then none else some (decStr target),
                             mode := decMode mode }
       let lim := decNat limit
       let a : Agent Float String := { config := s.cfg, clients := s.clients }
       let (o, a') := a.subscribe (.subscribe sl) (lim + 1) (decNat polls)
       let r := renderOutcome lim o
-      ({ s with clients := a'.clients }, r, r)
+      -- via `s`: a Client of its own (created for another configuration, given this one with SetConfig) runs the
+      -- stream: the same generator, the same stream; the agent's client list is not involved
+      ({ s with clients := if via == "s" then s.clients else a'.clients }, r, r)
   | ["bad", _via, what] =>
       let first : First :=
         if what == "eof" then .recvEOF
